@@ -58,9 +58,10 @@ def _restored(before, after):
     return sl.eq_value(before, after)
 
 
-def scenario(env, make, query, update, chunks, relevant_skip=("n_features_in_",)):
+def scenario(env, make, query, update, chunks, relevant_skip=("n_features_in_",), update_only_twin=True):
     A = make()
     Bo = copy.deepcopy(A)
+    Co = copy.deepcopy(A)
     # run B: no extra calls
     res_B = []
     for t, ch in enumerate(chunks):
@@ -97,6 +98,14 @@ def scenario(env, make, query, update, chunks, relevant_skip=("n_features_in_",)
     sa, sb = sl.bm_state(A), sl.bm_state(Bo)
     for k in sorted((relevant or set())):
         env.prove(sl.eq_value(sa.get(k), sb.get(k)), f"final_state_unaffected_by_extra_queries:{k}")
+    if update_only_twin and len(chunks) > 1:
+        # run C: the same updates without a single query - "state advances only through update": whatever both objects
+        # hold at the end must agree (a query that consumes the generator while it lazily creates state shows here)
+        for t, ch in enumerate(chunks[:-1]):
+            update(Co, ch, res_B[t][0])
+        sc = sl.bm_state(Co)
+        for k in sorted((relevant or set()) & set(sc) & set(sb)):
+            env.prove(_restored(sc.get(k), sb.get(k)), f"state_equals_update_only_twin:{k}")
     return res_B
 
 
